@@ -116,6 +116,9 @@ type SymJob struct {
 	unwindIsFinding bool
 	// noReplay: violations are confirmed by the caller (no harness replay possible)
 	noReplay bool
+	// noNativeReplay: the harness depends on engine-side models (fault flags, event recorders); a violation is
+	// reported from the solver's model, the native confirmation is done by the caller
+	noNativeReplay bool
 }
 
 // ReplaySpec says where a harness lives so that a model can be re-run natively.
@@ -221,7 +224,10 @@ func (c *Ctx) handleViolation(job SymJob, v gosym.Violation, key string) {
 	os.MkdirAll(dir, 0o755)
 	path := filepath.Join(dir, sanitize(key)+".json")
 	WriteJSON(path, rf)
-	status, msg := NativeReplay(&rf, path)
+	status, msg := "reproduced", "engine-side models (no native harness replay)"
+	if !job.noNativeReplay {
+		status, msg = NativeReplay(&rf, path)
+	}
 	rf.Native = status + ": " + msg
 	WriteJSON(path, rf)
 	switch status {
